@@ -4,7 +4,7 @@ From Coq Require Import List String Bool Arith.
 From Coq Require Import Floats.PrimFloat.
 From PAFCommon Require Import PyFloat.
 From PAFC01 Require Import ModelTree Model Proofs2 Proofs3.
-From PAFC08 Require Import Model Lib Proofs1 Proofs2 Proofs3 Proofs4 Proofs5 Proofs6 Proofs7.
+From PAFC08 Require Import Model Lib Proofs1 Proofs2 Proofs3 Proofs4 Proofs5 Proofs6 Proofs7 Proofs8.
 Import ListNotations.
 Local Open Scope string_scope.
 Local Open Scope list_scope.
@@ -77,13 +77,13 @@ Lemma zero_prior_tuple_refuted :
              (inst_from_paths float fbin (ftree n) [(["h"; "a"], 0.5%float)]) = false.
 Proof. exists w_zero_tuple. eexists. split; [vm_compute; reflexivity|vm_compute; reflexivity]. Qed.
 
+Definition w_zero_extra : fsnode :=
+  SNode KColl [("z", SNode (KModel "G2" ["a"; "b"]) [("a", SConst 1%float); ("b", SConst 2%float); ("extra", SConst 3%float)] []);
+               ("h", g2 (SPrior 0 (uni (Some 0))) (SConst 2%float) [])] [].
+
 Lemma zero_prior_extra_refuted :
   exists n, fdict n = Err ETypeError /\ pickle_rt float n = Ok n /\ fdb n = Ok n.
-Proof.
-  exists (SNode KColl [("z", SNode (KModel "G2" ["a"; "b"]) [("a", SConst 1%float); ("b", SConst 2%float); ("extra", SConst 3%float)] []);
-                       ("h", g2 (SPrior 0 (uni (Some 0))) (SConst 2%float) [])] []).
-  repeat split; vm_compute; reflexivity.
-Qed.
+Proof. exists w_zero_extra. repeat split; vm_compute; reflexivity. Qed.
 
 (* ---- dict: LogGaussianPrior; dict-valued constant with a falsy entry ---- *)
 Lemma loggaussian_refuted : exists n, fdict n = Err ETypeError /\ dict_rt float ffalsy cfg_fixed n <> Err ETypeError.
@@ -172,3 +172,23 @@ Qed.
 (* hypotheses of C08_round_trip_arith / C08_iter_arith on the model with b = p + q *)
 Example arith_guard2 : guard2 float ffalsy cfg_fixed FDict w_arith = true /\ guard2 float ffalsy cfg_fixed FDb w_arith = true.
 Proof. split; vm_compute; reflexivity. Qed.
+
+(* with the proposed repair C08-dict-instance-exact (cfg_next) the two witnesses about components without free
+   parameters satisfy the guard of C08_round_trip_partial / the hypothesis of C08_iter_next and round-trip *)
+Lemma zero_prior_next :
+  plain_cf float cfg_next w_zero_tuple = true /\ plain_cf float cfg_next w_zero_extra = true /\
+  (exists n', dict_rt float ffalsy cfg_next w_zero_tuple = Ok n' /\
+     ival_eqb (inst_from_paths float fbin (ftree n') [(["h"; "a"], 0.5%float)])
+              (inst_from_paths float fbin (ftree w_zero_tuple) [(["h"; "a"], 0.5%float)]) = true) /\
+  (exists n', dict_rt float ffalsy cfg_next w_zero_extra = Ok n' /\
+     snode_eqb (smap float (forget_f float) (norm float n')) (smap float (forget_f float) (norm float w_zero_extra)) = true).
+Proof.
+  split; [vm_compute; reflexivity|]. split; [vm_compute; reflexivity|]. split.
+  - eexists. split; [vm_compute; reflexivity|vm_compute; reflexivity].
+  - eexists. split; [vm_compute; reflexivity|vm_compute; reflexivity].
+Qed.
+
+(* a component that IS rebuilt exactly by its class stays an instance under cfg_next *)
+Example exact_stays_instance :
+  as_instance float cfg_next (SNode (KModel "G2" ["a"; "b"]) [("a", SConst 1%float); ("b", SConst 2%float)] []) = true.
+Proof. vm_compute. reflexivity. Qed.
